@@ -495,9 +495,11 @@ func c12(r *core.Run) {
 				ok := false
 				want := pk
 				switch {
-				case len(ps) == 2 && x.exc.product != "" && strings.HasSuffix(lf.label, "."+strings.SplitN(x.exc.product, ".", 2)[1]):
-					want = fmt.Sprintf("(p%d*p%d)", ps[0], ps[1])
-					ok = sh == want && ps[1] == ps[0]+1 && ps[1] == len(x.fn.Params)-1
+				case x.exc.product != "" && strings.HasSuffix(lf.label, "."+strings.SplitN(x.exc.product, ".", 2)[1]):
+					// the tabled product is required, not merely allowed: Offset = page alone shifts every page but the first
+					n := len(x.fn.Params)
+					want = fmt.Sprintf("(p%d*p%d)", n-2, n-1)
+					ok = len(ps) == 2 && sh == want && ps[1] == ps[0]+1 && ps[1] == n-1
 				case len(ps) != 1:
 					want = "a single parameter"
 				case lt.String() == "time.Duration" && pt.String() != "time.Duration":
